@@ -36,7 +36,7 @@ TABLE = [
     ("scalar_mul", "2.5 * A"), ("scalar_rmul", "A * 2.5"), ("scalar_add", "A + 0.75"), ("scalar_rsub", "1.5 - w"), ("scalar_sub", "w - 1.5"),
     ("scalar_div", "A / 4.0"), ("scalar_rdiv", "2.0 / (w * w + 1.0)"), ("pow2", "w ** 2"), ("neg", "-A"),
     ("sum_all", "A.sum()"), ("sum_dim0", "A.sum(dim=0)"), ("sum_dim1", "A.sum(dim=1)"), ("torch.sum", "torch.sum(A, dim=0)"),
-    ("mean_dim0", "A.mean(dim=0)"), ("mean_all", "A.mean()"), ("norm_all", "A.norm()"), ("norm_rows", "A.norm(dim=1)"),
+    ("mean_dim0", "A.mean(dim=0)"), ("mean_all", "A.mean()"), ("norm_all", "A.norm()"), ("matrix_norm_2", "torch.linalg.matrix_norm(A, ord=2)"), ("matrix_norm_fro", "torch.linalg.matrix_norm(A)"), ("norm_rows", "A.norm(dim=1)"),
     ("linalg.norm", "torch.linalg.norm(w)"), ("linalg.norm_rows", "torch.linalg.norm(A, dim=1)"), ("torch.norm", "torch.norm(A)"),
     ("max_all", "A.max()"), ("min_all", "A.min()"), ("torch.max", "torch.max(w)"), ("abs", "A.abs()"), ("torch.abs", "torch.abs(w)"),
     ("sqrt", "(w * w).sqrt()"), ("exp", "w.exp()"), ("sign", "A.sign()"), ("relu", "A.relu()"), ("tanh", "w.tanh()"),
